@@ -82,6 +82,10 @@ CHECKS = {
             'For every history inside the bounds, on both servers: connect first and once; exactly one disconnect naming the first end cause; no event for the session afterwards, '
             'including for requests and frames injected later; nothing at all after a rejected connect; handler exceptions change neither the protocol nor the other session.',
             'Trusted: CrossHair (selector enumeration), z3, the simulated environment. Known finding F6 waived for histories in which the threaded disconnect() is blocked.', '§3 C05'),
+    'C07': (SIM + ' with a virtual clock; solver-enumerated integer grid of PONG delays, send times and monitor-sweep phases over a table of (ping_interval, ping_timeout) pairs, plus a genuinely symbolic (unbounded) send time relative to an unanswered PING',
+            'For every timing on the integer grid of each configured pair, on both servers, polling and WebSocket, monitoring on/off: PINGs come exactly ping_interval after OPEN / PONG; a peer answering within ping_timeout is never dropped for timeout; '
+            'a silent peer is dropped within ping_interval + 3 x ping_timeout of its last PONG with monitoring on, and at the first send after the deadline in any case (for EVERY send time, symbolic); an unserved poll is answered with an error.',
+            'Trusted: CrossHair, z3, the simulated environment and its virtual integer clock (ties at exactly ping_timeout between a PONG and the poll / read timeout are not judged).', '§3 C07'),
 }
 
 NOT_BUILT = 'check not built yet in this round (see DESIGN.md §8 build order); not claimed until it runs'
